@@ -9,8 +9,10 @@ import (
 	"math"
 	"os"
 	"reflect"
+	"strconv"
 	"strings"
 	"testing"
+	"unicode/utf8"
 
 	"github.com/containerd/nri/pkg/api"
 	rspec "github.com/opencontainers/runtime-spec/specs-go"
@@ -22,26 +24,26 @@ import (
 )
 
 type C14Case struct {
-	Kind    string                  `json:"kind"`
-	OCIRes  *rspec.LinuxResources   `json:"oci_res,omitempty"`
-	NRIRes  *api.LinuxResources     `json:"nri_res,omitempty"`
-	NRIRes2 *api.LinuxResources     `json:"nri_res2,omitempty"`
-	OCIRes2 *rspec.LinuxResources   `json:"oci_res2,omitempty"`
-	Mounts  []rspec.Mount           `json:"mounts,omitempty"`
-	Query   bool                    `json:"query,omitempty"`
-	Devices []rspec.LinuxDevice     `json:"devices,omitempty"`
-	Hooks   *rspec.Hooks            `json:"hooks,omitempty"`
-	Env     []string                `json:"env,omitempty"`
-	NS      []rspec.LinuxNamespace  `json:"ns,omitempty"`
-	OptKind string                  `json:"opt_kind,omitempty"`
-	OptForm string                  `json:"opt_form,omitempty"`
-	I       int64                   `json:"i,omitempty"`
-	U       uint64                  `json:"u,omitempty"`
-	B       bool                    `json:"b,omitempty"`
-	S       string                  `json:"s,omitempty"`
-	Mask    int32                   `json:"mask,omitempty"`
-	Events  []int32                 `json:"events,omitempty"`
-	MutIdx  int                     `json:"mut_idx,omitempty"`
+	Kind    string                 `json:"kind"`
+	OCIRes  *rspec.LinuxResources  `json:"oci_res,omitempty"`
+	NRIRes  *api.LinuxResources    `json:"nri_res,omitempty"`
+	NRIRes2 *api.LinuxResources    `json:"nri_res2,omitempty"`
+	OCIRes2 *rspec.LinuxResources  `json:"oci_res2,omitempty"`
+	Mounts  []rspec.Mount          `json:"mounts,omitempty"`
+	Query   bool                   `json:"query,omitempty"`
+	Devices []rspec.LinuxDevice    `json:"devices,omitempty"`
+	Hooks   *rspec.Hooks           `json:"hooks,omitempty"`
+	Env     []string               `json:"env,omitempty"`
+	NS      []rspec.LinuxNamespace `json:"ns,omitempty"`
+	OptKind string                 `json:"opt_kind,omitempty"`
+	OptForm string                 `json:"opt_form,omitempty"`
+	I       int64                  `json:"i,omitempty"`
+	U       uint64                 `json:"u,omitempty"`
+	B       bool                   `json:"b,omitempty"`
+	S       string                 `json:"s,omitempty"`
+	Mask    int32                  `json:"mask,omitempty"`
+	Events  []int32                `json:"events,omitempty"`
+	MutIdx  int                    `json:"mut_idx,omitempty"`
 }
 
 func genC14(t *rapid.T) C14Case {
@@ -84,8 +86,12 @@ func genC14(t *rapid.T) C14Case {
 		if rapid.IntRange(0, 5).Draw(t, "nilenv") != 0 {
 			c.Env = rapid.SliceOfN(rapid.Custom(func(t *rapid.T) string {
 				k := rapid.StringMatching(`[A-Za-z_][A-Za-z0-9_]{0,6}`).Draw(t, "k")
-				v := rapid.SampledFrom([]string{"", "v", "a=b", "=", "==x", "a b", "ü"}).Draw(t, "v")
-				return k + "=" + v
+				if rapid.IntRange(0, 7).Draw(t, "rawkey") == 0 {
+					k += "\xe9K" // environment names and values are byte strings, not text
+				}
+				v := gen.Pick(t, "v", []string{"", "v", "a=b", "=", "==x", "a b", "ü", "\xff\xfe\x00\x01", "caf\xc3", "gr\xfc\xdf dich", "\x00", "a\nb", "\xc3\x28=\xa0\xa1"})
+				// entries are kept Go-quoted in the case: JSON cannot carry arbitrary bytes
+				return strconv.Quote(k + "=" + v)
 			}), 0, 5).Draw(t, "env")
 			if c.Env == nil {
 				c.Env = []string{}
@@ -647,23 +653,41 @@ func runC14(c C14Case) ev.Outcome {
 			}
 		}
 	case "env":
-		kv := api.FromOCIEnv(c.Env)
-		if (kv == nil) != (c.Env == nil) {
-			return ev.Failf("FromOCIEnv nil-ness: in nil=%v out nil=%v", c.Env == nil, kv == nil)
+		var env []string
+		if c.Env != nil {
+			env = []string{}
 		}
-		if len(kv) != len(c.Env) {
-			return ev.Failf("FromOCIEnv: %d in, %d out", len(c.Env), len(kv))
+		for _, q := range c.Env {
+			if u, err := strconv.Unquote(q); err == nil {
+				env = append(env, u)
+			} else {
+				env = append(env, q) // cases saved before entries were quoted
+			}
+		}
+		kv := api.FromOCIEnv(env)
+		if (kv == nil) != (env == nil) {
+			return ev.Failf("FromOCIEnv nil-ness: in nil=%v out nil=%v", env == nil, kv == nil)
+		}
+		if len(kv) != len(env) {
+			return ev.Failf("FromOCIEnv: %d in, %d out", len(env), len(kv))
 		}
 		for i, e := range kv {
-			if got := e.ToOCI(); got != c.Env[i] {
-				return ev.Failf("env %d round trip: in %q out %q", i, c.Env[i], got)
+			if got := e.ToOCI(); got != env[i] {
+				return ev.Failf("env %d round trip: in %q out %q", i, env[i], got)
 			}
-			k, v, _ := strings.Cut(c.Env[i], "=")
+			k, v, _ := strings.Cut(env[i], "=")
 			if e.Key != k || e.Value != v {
-				return ev.Failf("env %d split: %q -> key %q value %q", i, c.Env[i], e.Key, e.Value)
+				return ev.Failf("env %d split: %q -> key %q value %q", i, env[i], e.Key, e.Value)
 			}
-			if v == "" || strings.Contains(v, "=") {
+			// and the other direction: NRI -> OCI -> NRI
+			if back := api.FromOCIEnv([]string{(&api.KeyValue{Key: k, Value: v}).ToOCI()}); len(back) != 1 || back[0].Key != k || back[0].Value != v {
+				return ev.Failf("env %d NRI->OCI->NRI: key %q value %q came back as %v", i, k, v, back)
+			}
+			if v == "" || strings.Contains(v, "=") || !utf8.ValidString(env[i]) {
 				o.NonTrivial = true
+			}
+			if !utf8.ValidString(env[i]) {
+				o.Classes = append(o.Classes, "env:not_utf8")
 			}
 		}
 	case "ns":
